@@ -27,6 +27,7 @@ noncomputable def complexOps : ROps ℂ ℝ where
   one := 1
   add := (· + ·)
   sub := (· - ·)
+  mul := (· * ·)
   div := (· / ·)
   neg := fun x => -x
   sqrt := Real.sqrt
